@@ -503,6 +503,86 @@ def shape_rules(prog, res, rule="R-SHAPE"):
                  "simcam_close_camera can free the image buffers while the streamer thread is still rendering into them")
 
 
+def rule_bin2_pitch(prog, res, rule="R-BIN2-PITCH"):
+    """The vectorised 2x2 binning kernel addresses the image as rows of blocks:
+    element (row y, block x) is block x + y * PITCH.  Rows are packed at w
+    bytes (that is how the renderer wrote them and how the buffer was sized), so
+    PITCH blocks may not be longer than a row:  blocksize * PITCH <= w  for every
+    w.  Decided with a linear upper bound of PITCH's defining expression
+    (floor(w / c) <= w / c; a round-up pitch comes out as w + c - 1).  A necessary
+    condition of in-bounds access (with a longer pitch row h-1 ends past the
+    buffer for large h); the full in-bounds proof of the kernel is not decided."""
+    import re
+    from fractions import Fraction as Fr
+    from .. import congr
+    fs = [g for g in prog.all_funcs() if g.name == "bin2" and g.blocks]
+    if not fs:
+        raise AnalysisBroken("bin2 not found")
+    n = 0
+    for f in fs:
+        res.touched(f)
+        ints = [p_ for p_ in f.params if not p_.get("pd") and "int" in p_.get("t", "")]
+        if len(ints) < 2:
+            raise AnalysisBroken("bin2(im, w, h): parameters not found")
+        wname = ints[0]["n"]
+        loops = paths.natural_loops(f)
+        loopvars = set()
+        for head, body in loops:
+            c = f.blocks[head].cond_node()
+            for y in (ir.walk(c) if c is not None else []):
+                if isinstance(y, dict) and y.get("k") == "var" and not y.get("p"):
+                    loopvars.add(y["id"])
+        # products  <loop index> * PITCH  inside indices of block pointers
+        pitches = {}
+        for b, i, s_ in f.all_stmts():
+            for y in ir.walk(s_):
+                if not (isinstance(y, dict) and y.get("k") == "bin" and y.get("op") == "*"):
+                    continue
+                l, r = ir.strip(y["l"]), ir.strip(y["r"])
+                for a_, o in ((l, r), (r, l)):
+                    has_loopvar = any(isinstance(z, dict) and z.get("k") == "var" and z.get("id") in loopvars for z in ir.walk(a_))
+                    if has_loopvar and isinstance(o, dict) and o.get("k") == "var" and o.get("id") not in loopvars and not o.get("pd"):
+                        pitches[o["id"]] = o
+        if not pitches:
+            res.notes.append("R-BIN2-PITCH: %s (%s) has no row-of-blocks indexing (no <loop index> * pitch product)" % (f.name, f.file))
+            continue
+        # block size from the element type of the pointers that are indexed
+        bs = None
+        for b, i, s_ in f.all_stmts():
+            for y in ir.walk(s_):
+                if isinstance(y, dict) and y.get("k") == "idx":
+                    t = ir.strip(y["b"]).get("t", "") if isinstance(ir.strip(y["b"]), dict) else ""
+                    m = re.search(r"__vector_size__\((\d+)(?: \* sizeof\(([a-z ]+)\))?\)", t)
+                    if m:
+                        unit = {"long long": 8, "long": 8, "int": 4, "short": 2, "char": 1, "float": 4, "double": 8}.get((m.group(2) or "char").strip(), 1) if m.group(2) else 1
+                        bs = int(m.group(1)) * unit
+        if bs is None:
+            raise AnalysisBroken("bin2: block size of the vector type not recognised")
+        for vid, v in sorted(pitches.items()):
+            n += 1
+            pos = None
+            for b, i, s_ in f.all_stmts():
+                if s_.get("k") == "decl" and s_["var"].get("id") == vid and "init" in s_:
+                    pos = s_
+            inst = "%s: %d-byte blocks, row pitch %s: %d * %s <= %s" % (f.name, bs, v["n"], bs, v["n"], wname)
+            if pos is None:
+                res.fail(rule, inst, "%s|bin2|pitch-undefined" % rule, f.loc(), "the row pitch %s of bin2 has no single defining expression" % v["n"])
+                continue
+            ub = congr.upper_bound(pos["init"])
+            if ub is None:
+                raise AnalysisBroken("bin2: no linear upper bound for the row pitch %s = %s" % (v["n"], ir.render(pos["init"])))
+            ok = ub is not None and set(ub[0]) <= {wname} and ub[0].get(wname, Fr(0)) * bs <= 1 and ub[1] * bs <= 0
+            if ok:
+                res.oblige(rule, inst, True, "%s = %s is at most %s / %d" % (v["n"], ir.render(pos["init"]), wname, bs), f.loc(pos))
+            else:
+                shown = "unknown" if ub is None else " + ".join(["%s*%s" % (c_ * bs, a_) for a_, c_ in ub[0].items()] + [str(ub[1] * bs)])
+                res.fail(rule, inst, "%s|bin2|pitch" % rule, f.loc(pos),
+                         "bin2 steps from one image row to the next by %s = %s blocks of %d bytes; the best upper bound of that pitch in bytes is %s, which is not <= %s: "
+                         "rows are packed at %s bytes, so for widths that are not a multiple of %d the kernel reads and writes past the end of the render buffer"
+                         % (v["n"], ir.render(pos["init"]), bs, shown, wname, wname, bs))
+    return n
+
+
 def run(ctx, res):
     prog = ctx.program()
     res.extra["explanation"] = EXPLANATION
@@ -524,6 +604,7 @@ def run(ctx, res):
     res.guard(rule_index_guards, prog, res, ["sample_type_to_string", "bytes_of_type"])
     res.require_min("R-INDEX", 2)
     res.require_min("R-SHAPE", 6)
+    res.guard(rule_bin2_pitch, prog, res)
     res.require_min("O-PROV", 4)
     res.require_min("R-REALLOC-COVERS", 2)
     res.require_min("GUARD-DOM", 2)
